@@ -138,46 +138,81 @@ def load_known():
     return known, fixed
 
 
-def run_workers(binary, prop, tier, seed, nshards, count, budget, extra_env=None, tmpdir=None, shard_base=0):
-    procs = []
-    for sh in range(shard_base, shard_base + nshards):
-        out = os.path.join(tmpdir, "w%d.json" % sh)
-        e = dict(ENV)
-        e.update(VERIF_PROP=prop, VERIF_TIER=tier, VERIF_SEED=str(seed), VERIF_SHARD=str(sh), VERIF_NSHARDS=str(max(nshards, 16)),
-                 VERIF_COUNT=str(count), VERIF_BUDGET_S=str(budget), VERIF_OUT=out, VERIF_REPLAY_DIR=REPLAYS)
-        if prop == "C12":
-            e["VERIF_JOURNAL"] = out + ".journal"
-        if extra_env:
-            e.update(extra_env)
-        # output goes to a file, not a pipe: a library that writes a lot to the standard streams must not be
-        # able to block inside a Step because nobody is draining the pipe (that would look like a hang)
-        lf = open(out + ".log", "w")
-        p = subprocess.Popen([binary, "-test.run", "^TestWorker$", "-test.timeout", "0", "-test.count", "1"], env=e, cwd=tmpdir,
-                             stdout=lf, stderr=subprocess.STDOUT)
-        lf.close()
-        procs.append((sh, p, out))
-    results, trouble, races = [], [], []
-    deadline = time.time() + budget * 3 + 300
-    for sh, p, out in procs:
-        def output():
-            with open(out + ".log", errors="replace") as f:
-                f.seek(0, 2)
-                n = f.tell()
-                if n <= 4_000_000:
-                    f.seek(0)
-                    return f.read()
-                # very long output (a chatty library): head and tail are what matters
-                f.seek(0)
-                head = f.read(2_000_000)
-                f.seek(n - 2_000_000)
-                return head + "\n...\n" + f.read()
+CHILDREN = []   # every worker process still running (killed if this process is told to stop)
+WORKDIRS = []   # scratch directories of this process
+
+
+def _stop_children(signum=None, frame=None):
+    for p in list(CHILDREN):
         try:
-            p.wait(timeout=max(1, deadline - time.time()))
-            so = output()
-        except subprocess.TimeoutExpired:
             p.kill()
-            p.wait()
-            so = output()
+        except Exception:
+            pass
+    if signum is not None:
+        for d in WORKDIRS:
+            shutil.rmtree(d, ignore_errors=True)
+        sys.stderr.write("HARNESS-TROUBLE: interrupted by signal %s\n" % signum)
+        os._exit(2)
+
+
+def run_workers(binary, prop, tier, seed, nshards, count, budget, extra_env=None, tmpdir=None, shard_base=0, maxpar=None):
+    """Runs shards shard_base .. shard_base+nshards-1, at most maxpar processes at a time (all shards are
+    always run: which scenario families exist depends on the shard number, not on the machine)."""
+    maxpar = max(1, maxpar or nshards)
+    waves = (nshards + maxpar - 1) // maxpar
+    per_budget = budget if tier.startswith("quick") else max(10, budget // waves)
+    pending = list(range(shard_base, shard_base + nshards))
+    running, finished = [], []
+
+    def output(out):
+        with open(out + ".log", errors="replace") as f:
+            f.seek(0, 2)
+            n = f.tell()
+            if n <= 4_000_000:
+                f.seek(0)
+                return f.read()
+            # very long output (a chatty library): head and tail are what matters
+            f.seek(0)
+            head = f.read(2_000_000)
+            f.seek(n - 2_000_000)
+            return head + "\n...\n" + f.read()
+
+    while pending or running:
+        while pending and len(running) < maxpar:
+            sh = pending.pop(0)
+            out = os.path.join(tmpdir, "w%d.json" % sh)
+            e = dict(ENV)
+            e.update(VERIF_PROP=prop, VERIF_TIER=tier, VERIF_SEED=str(seed), VERIF_SHARD=str(sh), VERIF_NSHARDS=str(max(nshards, 16)),
+                     VERIF_COUNT=str(count), VERIF_BUDGET_S=str(per_budget), VERIF_OUT=out, VERIF_REPLAY_DIR=REPLAYS)
+            if prop == "C12":
+                e["VERIF_JOURNAL"] = out + ".journal"
+            if extra_env:
+                e.update(extra_env)
+            # output goes to a file, not a pipe: a library that writes a lot to the standard streams must not be
+            # able to block inside a Step because nobody is draining the pipe (that would look like a hang)
+            lf = open(out + ".log", "w")
+            p = subprocess.Popen([binary, "-test.run", "^TestWorker$", "-test.timeout", "0", "-test.count", "1"], env=e, cwd=tmpdir,
+                                 stdout=lf, stderr=subprocess.STDOUT)
+            lf.close()
+            CHILDREN.append(p)
+            running.append((sh, p, out, time.time() + per_budget * 3 + 300))
+        time.sleep(0.05)
+        for item in list(running):
+            sh, p, out, deadline = item
+            if p.poll() is not None:
+                running.remove(item)
+                CHILDREN.remove(p)
+                finished.append((sh, p, out, False))
+            elif time.time() > deadline:
+                p.kill()
+                p.wait()
+                running.remove(item)
+                CHILDREN.remove(p)
+                finished.append((sh, p, out, True))
+    results, trouble, races = [], [], []
+    for sh, p, out, timed_out in sorted(finished, key=lambda x: x[0]):
+        so = output(out)
+        if timed_out:
             trouble.append("worker %d: watchdog expired\n%s" % (sh, so[-2000:]))
             continue
         if "WARNING: DATA RACE" in so:
@@ -259,6 +294,14 @@ def crash_in_library(dump):
     m = re.search(r"\ngoroutine \d+ (?:gp=\S+ m=\S+(?: mp=\S+)? )?\[running[^\]]*\]:\n", dump)
     if not m:
         return False
+    if "stack overflow" in first or "stack exceeds" in dump[:600]:
+        # whoever happened to need more stack when the limit was reached is not the culprit (it may well be a
+        # device callback of the harness at the leaf): the recursion is. The dump lists the top and bottom
+        # frames of the running goroutine; it is the library's if those are overwhelmingly library frames.
+        sect = dump[m.end():].split("\n\n")[0]
+        lib = len(re.findall(r"^github\.com/koron-go/z80(?:\.|/internal/)", sect, re.M))
+        har = len(re.findall(r"^github\.com/koron-go/z80/verifsim", sect, re.M))
+        return lib >= 20 and lib > 5 * har
     for l in dump[m.end():].splitlines():
         f = l.strip()
         if not f or l.startswith("\t") or f.startswith("runtime.") or f.startswith("internal/") or f.startswith("panic(") or f.startswith("..."):
@@ -320,6 +363,7 @@ def check(prop, tier):
     if os.path.exists(ev_path):
         os.remove(ev_path)
     tmpdir = os.path.join(BIN, "work-%s-%s-%d" % (prop, tier, os.getpid()))
+    WORKDIRS.append(tmpdir)
     os.makedirs(tmpdir, exist_ok=True)
     try:
         return _check(prop, tier, cfg, seed, t0, ev_path, tmpdir)
@@ -346,8 +390,8 @@ def _check(prop, tier, cfg, seed, t0, ev_path, tmpdir):
     results, trouble = [], []
     if race_binary:
         # plain workers on 3/4 of the cores, race-binary workers (slower) on the rest, distinct shard numbers
-        n_plain = max(1, ncpu * 3 // 4)
-        n_race = max(1, ncpu - n_plain)
+        n_plain = ncpu                 # at most this many plain workers at a time (all 16 shards always run)
+        n_race = max(1, ncpu // 4)     # plus the (slower) race-binary workers of the side-car
         d1 = os.path.join(tmpdir, "plain")
         d2 = os.path.join(tmpdir, "race")
         os.makedirs(d1)
@@ -373,20 +417,25 @@ def _check(prop, tier, cfg, seed, t0, ev_path, tmpdir):
                 r1, t1 = run_workers(race_binary, prop, tier + "-race", seed + 1000003, n_race, per, max(5, int(t_end - time.time())), tmpdir=dd, shard_base=rnd * n_race)
                 res += r1
                 tr += t1
+                box["race_rounds"] = rnd + 1
                 if t1 or any(x.get("violations") for x in r1):
                     break
             box["race"] = (res, tr)
         th = threading.Thread(target=go_race)
         th.start()
-        go("plain", binary, prop, tier, seed, n_plain, count, budget, tmpdir=d1)
+        go("plain", binary, prop, tier, seed, 16, count, budget, tmpdir=d1, maxpar=n_plain)
         th.join()
         for key in ("plain", "race"):
             results += box[key][0]
             trouble += box[key][1]
+        race_rounds = box.get("race_rounds", 0)
+        if tier == "quick" and race_rounds < 6 and not trouble and not any(x.get("violations") for x in box["race"][0]):
+            print("RACE-ROUNDS property=%s: the race side-car ran %d of its 6 rounds of short-lived processes within the time budget (machine too busy?)" % (prop, race_rounds))
     else:
-        r, tr = run_workers(binary, prop, tier, seed, ncpu, count, budget, tmpdir=tmpdir)
+        r, tr = run_workers(binary, prop, tier, seed, 16, count, budget, tmpdir=tmpdir, maxpar=ncpu)
         results += r
         trouble += tr
+        race_rounds = None
     if trouble:
         for t in trouble:
             print(t)
@@ -483,6 +532,7 @@ def _check(prop, tier, cfg, seed, t0, ev_path, tmpdir):
             "evaluations_in_race_binary": m.get("race_evaluations", 0),
             "components": COMPONENTS,
             "workers_stopped_by_time_budget": budget_stops,
+            "race_sidecar_rounds_run": race_rounds,
             "build_s": round(bt, 2),
         },
         "assumptions": ASSUMPTIONS.get(prop, []),
@@ -613,6 +663,11 @@ def selftest_determinism(ids):
 
 
 def main():
+    import signal
+    signal.signal(signal.SIGTERM, _stop_children)
+    signal.signal(signal.SIGINT, _stop_children)
+    import atexit
+    atexit.register(_stop_children)
     load_texts()
     if len(sys.argv) < 2:
         die(__doc__)
